@@ -287,6 +287,15 @@ def mapped_helper(ctx, rep, se, fn, half, helper_names, read_bb, buf_loc):
     return True
 
 
+def shape(t):
+    """a term without the call sites it was computed at (to compare two functions' values)"""
+    if not isinstance(t, tuple):
+        return t
+    if t and t[0] == "call" and len(t) >= 3:
+        return ("call", t[1], tuple(shape(a) for a in t[2]))
+    return tuple(shape(x) for x in t)
+
+
 def writer_rule(ctx, rep, half, name, b, helper):
     fn = b.path
     se = ctx.wrap.run(fn)
@@ -300,12 +309,38 @@ def writer_rule(ctx, rep, half, name, b, helper):
     info = se.term_info[bb]
     la = info["locargs"]
     w_ok = peel_after(strip(la[0])) == ("param", 2)
+    if not w_ok and la[0][0] == "ref" and la[0][1][0] == "local":
+        # the writer moved into a local of a looked-through helper (`mut write: W`)
+        w_ok = peel_after(strip(util.value_before_terminator(se, bb, la[0][1]))) == ("param", 2)
     buf = strip(info["args"][1])
     hname = half + "::" + helper
     good = util.is_call(buf, hname) and buf[2][0] == ("mutref", 0) and tuple(buf[2][1:]) == (("param", 3), ("param", 4))
-    rep.check(w_ok and good, "writer", fn, "writes-helper-output", "write_all(writer, %s(self, size, opcode))" % helper, "bytes written are not the whole output of %s(self, size, opcode): %s" % (helper, show(buf, maxdepth=3)), body.loc(bb))
     n_helper = sum(1 for i in se.term_info.values() if i.get("k") == "call" and i["name"] == hname)
-    rep.check(n_helper == 1, "writer", fn, "helper-once", "the header is encrypted exactly once", "typed helper called %d times" % n_helper, body.loc())
+    how = "write_all(writer, %s(self, size, opcode))" % helper
+    once_how = "the header is encrypted exactly once"
+    if not good and n_helper == 0:
+        # the writer does not go through the typed helper but through what the helper itself is
+        # made of (a shared builder): the bytes written must be the very term the helper returns
+        # for the same (self, size, opcode), and the state-changing crate calls must be the same
+        hse = ctx.wrap.run(hname)
+        if hse is not None and not any(x[0] == "phi" for x in walk(strip(hse.ret))) and not any(x[0] == "phi" for x in walk(buf)):
+            def sub(x):
+                if x[0] == "param" and x[1] in (2, 3):
+                    return ("param", x[1] + 1)
+                return None
+            want_t = shape(util.map_term(strip(hse.ret), sub))
+            def crate_calls(s_):
+                return sorted(i["name"] for i in s_.term_info.values() if i.get("k") == "call" and i["name"] in ctx.fb.bodies)
+            got = buf
+            while got[0] in ("ref", "refv") and isinstance(got[1], tuple):
+                got = strip(got[1])
+            if want_t == shape(got) and crate_calls(hse) == crate_calls(se):
+                good = True
+                n_helper = 1
+                how = "write_all(writer, X) with X the same term %s(self, size, opcode) returns, built by the same calls" % helper
+                once_how = "the same crate calls as the typed helper, each once: %s" % crate_calls(se)
+    rep.check(w_ok and good, "writer", fn, "writes-helper-output", how, "bytes written are not the whole output of %s(self, size, opcode): %s" % (helper, show(buf, maxdepth=3)), body.loc(bb))
+    rep.check(n_helper == 1, "writer", fn, "helper-once", once_how, "typed helper called %d times" % n_helper, body.loc())
     arms = try_arms(se, bb)
     if arms is None and strip(se.ret) == strip(info["term"]):
         rep.ok("writer", fn, "error-propagated", "the io::Result of write_all is the function's result", body.loc(bb))
@@ -344,7 +379,7 @@ def raw_apps(ctx, se, half, raw):
     for bb, i in se.term_info.items():
         if i.get("k") != "call":
             continue
-        la = i.get("locargs", (("?",),))[0]
+        la = (i.get("locargs") or (("?",),))[0]
         if i["name"] == half + "::" + raw and la == ("ref", self_root, True):
             out.append(i)
         elif i["name"] == IC_APPLY and len(cf) == 1 and la == ("ref", ("field", self_root, cf[0]), True):
